@@ -110,11 +110,52 @@ def hedges(edges_md):
     return edges_md[0] if len(edges_md) == 1 else edges_md
 
 
-def mk_hist(edges_md, bins, noor=0):
+def _at(nested, path):
+    for i in path:
+        nested = nested[i]
+    return nested
+
+
+def share_hist_lists(edges_md, bins, alias):
+    """alias = {"bins": [[path, path2], ...], "edges": [[d, d2], ...]}: the list at bins[path2] (edges_md[d2]) is replaced
+    by the very list object at bins[path] (edges_md[d]); the values must already be equal, so that the same arguments
+    without *alias* describe the same histogram built from separate lists"""
+    for src, dst in alias.get("bins", ()):
+        a, parent = _at(bins, src), _at(bins, dst[:-1])
+        if not isinstance(a, list) or repr(parent[dst[-1]]) != repr(a):
+            raise ValueError("alias %r joins unequal lists in %r" % (alias, bins))
+        parent[dst[-1]] = a
+    for src, dst in alias.get("edges", ()):
+        if repr(edges_md[dst]) != repr(edges_md[src]):
+            raise ValueError("alias %r joins unequal edges in %r" % (alias, edges_md))
+        edges_md[dst] = edges_md[src]
+
+
+def equalise(edges_md, bins, alias):
+    """copies of (edges_md, bins) with the VALUES of every alias source copied to its target (still separate lists)"""
+    e, b = copy.deepcopy(edges_md), copy.deepcopy(bins)
+    for src, dst in alias.get("bins", ()):
+        _at(b, dst[:-1])[dst[-1]] = copy.deepcopy(_at(b, src))
+    for src, dst in alias.get("edges", ()):
+        e[dst] = list(e[src])
+    return e, b
+
+
+def mk_hist(edges_md, bins, noor=0, alias=None):
     e = copy.deepcopy(edges_md)
-    h = histogram(hedges(e), copy.deepcopy(bins))
+    b = copy.deepcopy(bins)
+    if alias:
+        share_hist_lists(e, b, alias)
+    h = histogram(hedges(e), b)
     h.n_out_of_range = noor
     return h
+
+
+def mk_twin(h, noor=0):
+    """another histogram object over the very same bins and edges lists"""
+    t = histogram(h.edges, h.bins)
+    t.n_out_of_range = noor
+    return t
 
 
 def snap(h):
@@ -172,7 +213,7 @@ def hist_unscaled(v, fid, h, before, ctx):
 
 
 # ------------------------------------------------------------------------------------ histogram.scale / integral
-def chk_scale(edges_md, bins, noor, s, s2, pre):
+def chk_scale(edges_md, bins, noor, s, s2, pre, alias=None):
     v = []
     ctx = "histogram(%r, %r) n_out_of_range=%r [%s]" % (hedges(edges_md), bins, noor, pre)
     cells = ref_cells(edges_md, bins)
@@ -180,8 +221,9 @@ def chk_scale(edges_md, bins, noor, s, s2, pre):
     got, ex = exc_name(lambda: integral(copy.deepcopy(bins), copy.deepcopy(edges_md)))
     if ex or not close(got, I, mag):
         v.append(("integral/value", "integral(%r, %r) = %r, expected %s" % (bins, edges_md, ex or got, float(I))))
-    h = mk_hist(edges_md, bins, noor)
+    h = mk_hist(edges_md, bins, noor, alias)
     before = snap(h)
+    twin = mk_twin(h, noor)
     if pre == "cached":
         got, ex = exc_name(lambda: h.scale())
         if ex or not close(got, I, mag):
@@ -199,6 +241,8 @@ def chk_scale(edges_md, bins, noor, s, s2, pre):
     f = Fraction(s) / I
     if not hist_scaled(v, "histogram.scale", h, edges_md, cells, noor, f, ctx + " scale(%r)" % s):
         return v
+    hist_unscaled(v, "histogram.scale/histogram-sharing-lists-changed", twin, before,
+                  ctx + " scale(%r): another histogram object over the same bins and edges lists" % s)
     got, ex = exc_name(lambda: h.scale())
     if ex or not close(got, s, mag * abs(f)):
         v.append(("histogram.scale/stored-scale-differs", "%s: after scale(%r), scale() = %r" % (ctx, s, ex or got)))
@@ -228,14 +272,21 @@ def chk_scale(edges_md, bins, noor, s, s2, pre):
 
 
 # ------------------------------------------------------------------------------------------------ histogram.add
-def chk_add(edges_md, bins_a, noor_a, bins_b, noor_b, w, mode):
-    """mode: 'pos' a.add(b, w); 'kw' a.add(b, weight=w); 'default' a.add(b) (w must be 1); 'self' a.add(a, w)"""
+def chk_add(edges_md, bins_a, noor_a, bins_b, noor_b, w, mode, alias=None):
+    """mode: 'pos' a.add(b, w); 'kw' a.add(b, weight=w); 'default' a.add(b) (w must be 1); 'self' a.add(a, w);
+    alias: {"a": list sharing inside a, "b": inside b, "share": True -> b is another histogram object over the very
+    bins and edges lists of a (bins_b must equal bins_a)}"""
     v = []
-    a = mk_hist(edges_md, bins_a, noor_a)
+    alias = alias or {}
+    a = mk_hist(edges_md, bins_a, noor_a, alias.get("a"))
     if mode == "self":
         b, bins_b, noor_b = a, bins_a, noor_a
+    elif alias.get("share"):
+        if repr(bins_b) != repr(bins_a):
+            raise ValueError("share needs equal bins")
+        b = mk_twin(a, noor_b)
     else:
-        b = mk_hist(edges_md, bins_b, noor_b)
+        b = mk_hist(edges_md, bins_b, noor_b, alias.get("b"))
     ctx = "histogram(%r, %r)[n_out=%r].add(histogram(.., %r)[n_out=%r], %r) [%s]" % (
         hedges(edges_md), bins_a, noor_a, bins_b, noor_b, w, mode)
     sa, sb = snap(a), snap(b)
@@ -320,9 +371,10 @@ def chk_add_unequal(edges_a, edges_b, w):
 
 
 # ----------------------------------------------------------------------------------- get_nevents / set_nevents
-def chk_nevents(edges_md, bins, noor, n, inc, style):
+def chk_nevents(edges_md, bins, noor, n, inc, style, alias=None):
     v = []
-    h = mk_hist(edges_md, bins, noor)
+    h = mk_hist(edges_md, bins, noor, alias)
+    twin = mk_twin(h, noor)
     ctx = "histogram(%r, %r) n_out_of_range=%r" % (hedges(edges_md), bins, noor)
     cells = ref_cells(edges_md, bins)
     T = sum(Fraction(c) for _, c, _ in cells)
@@ -358,6 +410,8 @@ def chk_nevents(edges_md, bins, noor, n, inc, style):
         return v
     f = Fraction(n) / old
     hist_scaled(v, "set_nevents", h, edges_md, cells, noor, f, ctx + " " + call)
+    hist_unscaled(v, "set_nevents/histogram-sharing-lists-changed", twin, before,
+                  ctx + " " + call + ": another histogram object over the same bins and edges lists")
     if style == "default":
         got, ex = exc_name(lambda: h.get_nevents())
     else:
